@@ -277,6 +277,11 @@ def configs(tier):
         out.append({'name': 'parallel-path-' + name, 'task': 'parallel_path', 'args': {'script': script, 'expect': expect},
                     'weight': 3, 'engine': {'validate': 5}})
     if tier == 'thorough':
+        # the attached store combined with the other options of the retry harness
+        out.append({'name': 'single-dim1-constraints-store-attached', 'task': 'single', 'args': {'dim': 1, 'ncon': 1, 'store': True}, 'weight': 20,
+                    'split': 32, 'engine': {'validate': 60}})
+        out.append({'name': 'single-dim2-precision-on-first-parameter-only-store-attached', 'task': 'single',
+                    'args': {'dim': 2, 'first_precision': 1.0, 'store': True}, 'weight': 20, 'split': 32, 'engine': {'validate': 60}})
         out.append({'name': 'batch-b2-f6', 'task': 'batch', 'args': {'b': 2, 'max_faults': 6}, 'weight': 40, 'split': 64,
                     'engine': {'validate': 60}})
         out.append({'name': 'batch-b3-f3', 'task': 'batch', 'args': {'b': 3, 'max_faults': 3}, 'weight': 30, 'split': 64,
